@@ -211,7 +211,16 @@ func (s *clSnap) get(path string) ([]byte, error) {
 	s.mu.Unlock()
 	rec := httptest.NewRecorder()
 	req := &http.Request{Method: "GET", URL: &url.URL{Path: path}, Header: http.Header{}}
-	s.srv.ServeHTTP(rec, req)
+	func() {
+		// sumdb.TestServer indexes its hash slice without a bounds check: a request for a tile beyond the log
+		// panics inside the handler; a real HTTP server turns that into a failed request
+		defer func() {
+			if recover() != nil {
+				rec.Code = 500
+			}
+		}()
+		s.srv.ServeHTTP(rec, req)
+	}()
 	r := clResp{ok: rec.Code == 200}
 	if r.ok {
 		r.data = append([]byte(nil), rec.Body.Bytes()...)
@@ -671,12 +680,14 @@ type clEnv struct {
 	trace   []clEvent
 	lookSrc *clSnap // snapshot answering /lookup/
 	tileSrc *clSnap // snapshot answering /tile/
+	srcOf   map[int][2]*clSnap // per-client override of (lookSrc, tileSrc)
 	growTo  []int   // when non-empty: the k-th remote lookup request is answered by A@growTo[min(k,len-1)] (an honest, growing server)
 	nLook   int
 	faults  []clFault
 	sched   *clSched
 	gids    sync.Map // goroutine id -> label
 	badSpec bool
+	badWhy  string
 	cfgHist []clCfgVal // successive values of <name>/latest (initial value first)
 }
 
@@ -712,18 +723,26 @@ func (e *clEnv) label() string {
 	return "t"
 }
 
-func (e *clEnv) honestGet(path string) ([]byte, error) {
-	if strings.HasPrefix(path, "/tile/") {
-		return e.tileSrc.get(path)
+func (e *clEnv) honestGet(path string) ([]byte, error) { return e.honestGetFor(-9, path) }
+
+func (e *clEnv) honestGetFor(c int, path string) ([]byte, error) {
+	ls, ts := e.lookSrc, e.tileSrc
+	if o, ok := e.srcOf[c]; ok {
+		ls, ts = o[0], o[1]
 	}
-	return e.lookSrc.get(path)
+	if strings.HasPrefix(path, "/tile/") {
+		return ts.get(path)
+	}
+	return ls.get(path)
 }
 
 // serve computes the (possibly faulty) remote response; called with e.mu held.
-func (e *clEnv) serve(path string) ([]byte, error) {
+func (e *clEnv) serve(c int, path string) ([]byte, error) {
 	var data []byte
 	var err error
-	if strings.HasPrefix(path, "/lookup/") && len(e.growTo) > 0 {
+	if _, over := e.srcOf[c]; over {
+		data, err = e.honestGetFor(c, path)
+	} else if strings.HasPrefix(path, "/lookup/") && len(e.growTo) > 0 {
 		k := e.nLook
 		if k >= len(e.growTo) {
 			k = len(e.growTo) - 1
@@ -770,12 +789,22 @@ func (o *clOps) do(kind, file string, f func(ev *clEvent)) clEvent {
 	if sch != nil {
 		rel = sch.wait(o.c, g, kind, file)
 	}
-	e.mu.Lock()
 	ev := clEvent{C: o.c, G: g, Kind: kind, File: file}
-	f(&ev)
-	ev.Seq = len(e.trace)
-	e.trace = append(e.trace, ev)
-	e.mu.Unlock()
+	func() {
+		e.mu.Lock()
+		defer e.mu.Unlock()
+		defer func() {
+			if r := recover(); r != nil {
+				// a bug of the harness (malformed fault parameter …), never of the client: flag the scenario
+				e.badSpec = true
+				e.badWhy = fmt.Sprint(r)
+				ev.Err = "err"
+			}
+			ev.Seq = len(e.trace)
+			e.trace = append(e.trace, ev)
+		}()
+		f(&ev)
+	}()
 	if rel != nil {
 		sch.ack()
 	}
@@ -784,7 +813,7 @@ func (o *clOps) do(kind, file string, f func(ev *clEvent)) clEvent {
 
 func (o *clOps) ReadRemote(path string) ([]byte, error) {
 	ev := o.do("rr", path, func(ev *clEvent) {
-		d, err := o.e.serve(path)
+		d, err := o.e.serve(o.c, path)
 		if err != nil {
 			ev.Err = "err"
 			return
@@ -876,6 +905,7 @@ func (o *clOps) SecurityError(msg string) {
 //	steps (each one token, `=`-separated argument):
 //	  nosumdb=<c>:<hex patterns>   GONOSUMDB list for client c (applies to clients created afterwards)
 //	  srv=<log>@<n>[,<log>@<n>]    server serves lookups from the first snapshot, tiles from the second (default: same)
+//	  srvc=<c>:<log>@<n>[,<log>@<n>]  the same, for client c only (a server that shows different clients different logs)
 //	  grow=<n1>,<n2>,...           honest growing server: k-th lookup request answered from A@n_k, tiles from A@max
 //	  f+=<fault>  f-=              add a fault rule / clear all fault rules
 //	  cfg=<log>@<n> | cfg=empty    set <name>/latest directly
@@ -927,6 +957,10 @@ type clLookup struct {
 	// trace window [from,to): events logged while this (sequential) lookup ran
 	from, to int
 	private  bool
+	// in-memory latest of the client before and after a sequential lookup, and the stored head before/after
+	memN0, memN1 int64
+	memH0, memH1 tlog.Hash
+	cfg0, cfg1   []byte
 }
 
 type clOutcome struct {
@@ -941,6 +975,7 @@ type clOutcome struct {
 	// in-memory latest.N per client sampled at quiescent points (scheduler runs, non-race builds) and at the end
 	latestSamples map[int][]int64
 	schedPicks    []string
+	nosumdbOf     map[int]string // GONOSUMDB list of each client instance
 }
 
 // clErrKind maps an error of Client.Lookup to a small enum (errors are wrapped with %v, so only the text is left).
@@ -1019,14 +1054,16 @@ const clLookupTimeout = 8 * time.Second
 func clRunScenario(sc *clScenario) *clOutcome {
 	w := clGetWorld(sc.wseed, sc.nA, sc.p, sc.nB)
 	env := clNewEnv(w)
-	out := &clOutcome{sc: sc, w: w, env: env, clients: map[int]*sumdb.Client{}, opsOf: map[int]*clOps{}, latestSamples: map[int][]int64{}}
+	out := &clOutcome{sc: sc, w: w, env: env, clients: map[int]*sumdb.Client{}, opsOf: map[int]*clOps{}, latestSamples: map[int][]int64{}, nosumdbOf: map[int]string{}}
 	nosumdb := map[int]string{}
 	newClient := func(c, group int) {
 		ops := &clOps{e: env, c: c, group: group}
 		cl := sumdb.NewClient(ops)
 		cl.SetTileHeight(sc.h)
+		out.nosumdbOf[c] = ""
 		if s, ok := nosumdb[c]; ok && s != "" {
 			cl.SetGONOSUMDB(s)
+			out.nosumdbOf[c] = s
 		}
 		out.clients[c] = cl
 		out.opsOf[c] = ops
@@ -1064,6 +1101,30 @@ func clRunScenario(sc *clScenario) *clOutcome {
 				}
 				env.tileSrc = t
 			}
+		case "srvc":
+			cp := strings.SplitN(arg, ":", 2)
+			c, err := strconv.Atoi(cp[0])
+			if err != nil || len(cp) != 2 {
+				out.bad = true
+				return out
+			}
+			parts := strings.Split(cp[1], ",")
+			s1, ok := w.parseSrc(parts[0])
+			if !ok {
+				out.bad = true
+				return out
+			}
+			s2 := s1
+			if len(parts) > 1 {
+				if s2, ok = w.parseSrc(parts[1]); !ok {
+					out.bad = true
+					return out
+				}
+			}
+			if env.srcOf == nil {
+				env.srcOf = map[int][2]*clSnap{}
+			}
+			env.srcOf[c] = [2]*clSnap{s1, s2}
 		case "grow":
 			env.growTo = nil
 			mx := 0
@@ -1157,6 +1218,7 @@ func clRunScenario(sc *clScenario) *clOutcome {
 				return out
 			}
 			newClient(c, g)
+			out.latestSamples[c] = append(out.latestSamples[c], -1) // a new instance: break the chain of samples
 			env.mu.Lock()
 			env.trace = append(env.trace, clEvent{C: c, G: "s", Kind: "new", Seq: len(env.trace)})
 			env.mu.Unlock()
@@ -1172,7 +1234,7 @@ func clRunScenario(sc *clScenario) *clOutcome {
 				out.bad = true
 				return out
 			}
-			lk := &clLookup{c: c, g: "s", key: parts[1], path: path, vers: vers}
+			lk := &clLookup{c: c, g: "s", key: parts[1], path: path, vers: vers, private: module.MatchPrefixPatterns(out.nosumdbOf[c], path)}
 			out.looks = append(out.looks, lk)
 			clSeqLookup(out, lk)
 			if lk.hang {
@@ -1222,6 +1284,22 @@ func clLatestN(c *sumdb.Client) int64 {
 	return n.Int()
 }
 
+// clLatest reads c.latest (size and hash) by read-only reflection.
+func clLatest(c *sumdb.Client) (int64, tlog.Hash) {
+	var h tlog.Hash
+	v := reflect.ValueOf(c).Elem().FieldByName("latest")
+	if !v.IsValid() {
+		return -1, h
+	}
+	hv := v.FieldByName("Hash")
+	if hv.IsValid() && hv.Len() == len(h) {
+		for i := range h {
+			h[i] = byte(hv.Index(i).Uint())
+		}
+	}
+	return v.FieldByName("N").Int(), h
+}
+
 // clWarm fills cache group g (and the configuration) by running an honest throw-away client.
 func clWarm(env *clEnv, g int, s *clSnap, ids string, h int) bool {
 	save := struct {
@@ -1268,7 +1346,9 @@ func clSeqLookup(out *clOutcome, lk *clLookup) {
 	env := out.env
 	env.mu.Lock()
 	lk.from = len(env.trace)
+	lk.cfg0 = append([]byte(nil), env.config[clName+"/latest"]...)
 	env.mu.Unlock()
+	lk.memN0, lk.memH0 = clLatest(out.clients[lk.c])
 	done := make(chan struct{})
 	go func() {
 		defer close(done)
@@ -1291,7 +1371,10 @@ func clSeqLookup(out *clOutcome, lk *clLookup) {
 	}
 	env.mu.Lock()
 	lk.to = len(env.trace)
+	lk.cfg1 = append([]byte(nil), env.config[clName+"/latest"]...)
 	env.mu.Unlock()
+	lk.memN1, lk.memH1 = clLatest(out.clients[lk.c])
+	out.latestSamples[lk.c] = append(out.latestSamples[lk.c], lk.memN1)
 	lk.kind = clErrKind(lk.err)
 	if lk.err != nil && strings.HasPrefix(lk.err.Error(), "panic:") {
 		lk.kind = "panic"
